@@ -1107,6 +1107,69 @@ fn run_c19_virtual(input: RunInput) -> ScenFuture {
             }
             w.probe("per-peer-independence-compared");
         }
+        // (4b) the wrapped service stops being ready (back-pressure) while requests of a peer are
+        // waiting inside the limiter for their turn: they were let in when it was ready, each is
+        // handed to it when its cell is due - one per period - and not all at once when the
+        // service is ready again
+        if block && !cancel && !w.violated() && w.flag("wrapped_service_not_ready_for_a_while", 0.25) {
+            #[derive(Clone)]
+            struct Gated<S> {
+                inner: S,
+                open: Arc<std::sync::atomic::AtomicBool>,
+                wakers: Arc<Mutex<Vec<std::task::Waker>>>,
+            }
+            impl<S: Service<Request<Bytes>>> Service<Request<Bytes>> for Gated<S> {
+                type Response = S::Response;
+                type Error = S::Error;
+                type Future = S::Future;
+                fn poll_ready(&mut self, cx: &mut Context<'_>) -> Poll<Result<(), S::Error>> {
+                    if !self.open.load(std::sync::atomic::Ordering::SeqCst) {
+                        self.wakers.lock().unwrap().push(cx.waker().clone());
+                        return Poll::Pending;
+                    }
+                    self.inner.poll_ready(cx)
+                }
+                fn call(&mut self, req: Request<Bytes>) -> Self::Future {
+                    self.inner.call(req)
+                }
+            }
+            let open = Arc::new(std::sync::atomic::AtomicBool::new(true));
+            let wakers: Arc<Mutex<Vec<std::task::Waker>>> = Default::default();
+            let gated = layer.layer(Gated { inner: inner.clone(), open: open.clone(), wakers: wakers.clone() });
+            let fresh = PeerId([0xE1; 32]);
+            let n_g = 4u64;
+            let t0 = w.now_ns();
+            let mut hs = Vec::new();
+            for k in 0..n_g {
+                let req = Request::new(Bytes::new()).with_extension(fresh).with_header("id", (6_000_000 + k).to_string()).with_header("instant", "1");
+                hs.push(tokio::spawn(gated.clone().oneshot(req)));
+            }
+            tokio::time::sleep(Duration::from_nanos(t_ns / 4)).await;
+            open.store(false, std::sync::atomic::Ordering::SeqCst);
+            tokio::time::sleep(Duration::from_nanos(3 * t_ns + t_ns / 4)).await;
+            open.store(true, std::sync::atomic::Ordering::SeqCst);
+            for wk in wakers.lock().unwrap().drain(..) {
+                wk.wake();
+            }
+            for h in hs {
+                let _ = tokio::time::timeout(Duration::from_nanos(4 * t_ns + 50_000_000), h).await;
+            }
+            let mut entries: Vec<u64> = inner.st.lock().unwrap().log.iter().filter(|e| e.0 >= 6_000_000 && e.0 < 6_000_000 + n_g).map(|e| e.1).collect();
+            entries.sort();
+            // (burst cells at once, then one per period; governor's bucket of burst+1 is the known finding)
+            let mut b = BucketReplay::new(t_ns, burst + 1, burst + 1);
+            for (k, t) in entries.iter().enumerate() {
+                if !b.admit(*t) {
+                    w.violate("quota-exceeded-in-a-window", format!("{key} service-not-ready"), format!("peer E1: request {k} of {n_g} entered the wrapped service at {} us after the first; the service had stopped being ready from {} to {} us while the requests were waiting for their cells (entries, us after the first: {:?})", (t - entries[0]) / 1000, t_ns / 4000, (3 * t_ns + t_ns / 2) / 1000, entries.iter().map(|x| (x - entries[0]) / 1000).collect::<Vec<_>>()));
+                    break;
+                }
+            }
+            if entries.len() as u64 != n_g {
+                w.violate("waiting-request-never-admitted", format!("{key} service-not-ready"), format!("only {} of {n_g} requests reached the wrapped service", entries.len()));
+            }
+            let _ = t0;
+            w.probe("wrapped-service-not-ready-phase");
+        }
         // (5) a crowd: thousands of peers the limiter has never seen send one request each within
         // one period. Quotas are per peer however many peers there are: every one of these first
         // requests is within its sender's quota and is admitted at once, in either mode
